@@ -6,7 +6,7 @@ TRUSTED = ["python ast (stdlib)", "RxPY: Subject delivers synchronously in subsc
 
 
 def rules_for(prop):
-    from .rules import mx, st, grp, lv, scan, er, ms, tm
+    from .rules import mx, st, grp, lv, scan, er, ms, tm, seq
     from functools import partial as P
 
     def named(f, **kw):
@@ -22,6 +22,10 @@ def rules_for(prop):
                 named(lv.rule_lv, only=("roll_mux._roll.subscribe", "roll_mux._roll_count.subscribe"))],
         "C08": [tm.rule_tm123, tm.rule_tm4, st.rule_st5, mx.rule_mx7],
         "C09": scan.RULES,
+        "C10": seq.RULES + [named(grp.rule_eq1, files=("rxsci/operators/distinct.py", "rxsci/operators/distinct_until_changed.py",
+                                                       "rxsci/operators/first.py", "rxsci/operators/take.py", "rxsci/operators/last.py",
+                                                       "rxsci/data/lag.py", "rxsci/data/pad.py", "rxsci/operators/start_with.py",
+                                                       "rxsci/data/batch.py"), min_instances=30)],
         "C13": er.RULES + [mx.rule_wc2],
         "C14": ms.RULES,
         "C06": [named(grp.rule_eq1, files=("rxsci/data/split.py",), min_instances=7), named(grp.rule_fw1, heads=("split",)), grp.rule_dp4,
